@@ -2,12 +2,18 @@
 import os, re
 import vlib
 
-GEN = True             # go/extract/c13.go regenerates lean/BlugeGen/C13.lean (persistProgram, removeProgram)
+GEN = True             # go/extract/c13.go regenerates lean/BlugeGen/C13.lean: persistProgram, removeProgram, lockProgram, unlockProgram,
+                       # loadProgram + the two loaders and their closers, OpenWriter's Lock()-failure branch, Writer.close's directory calls
+LAKE_TARGETS = ["BlugeProofs.C13", "BlugeProofs.C13.Bridge11", "drv_c13"]
+AUDIT_MODULES = ["BlugeProofs.C13", "BlugeProofs.C13.Bridge11"]   # Bridge11: the pid-file world refines the `lock` bit of Bluge.Persist (C11)
 STATELESS = True       # every line is one independent scenario
 REQUIRED_BRANCHES = [
     "prior-absent", "prior-shorter", "prior-equal", "prior-longer",
-    "fault-none", "fault-wfail", "fault-cancel", "fault-syncfail", "fault-lockbusy", "fault-noent",
+    "fault-none", "fault-wfail", "fault-cancel", "fault-syncfail", "fault-closefail", "fault-lockbusy", "fault-noent",
     "res-ok", "res-err", "one-write", "chunked", "traced", "remove",
+    "pid", "pid-refused", "traced-pid",                      # Lock/Unlock by several directory objects; a refused Lock()
+    "writers", "writer-refused", "writer-refused-twice",     # real OpenWriter/Close: second AND third writer refused while the first is open
+    "load-mm", "load-nm", "load-blocks-remove", "traced-load",  # Load (both loaders) against Remove/Persist by another object
 ]
 ASSUMPTIONS = [
     "OS semantics as in Bluge.FS: write at an offset keeps the bytes behind it; only ftruncate/O_TRUNC shorten a file; "
@@ -16,7 +22,14 @@ ASSUMPTIONS = [
     "the WriterTo is honest: it returns nil only after every one of its bytes was accepted by Write (the 'content' of the theorems is what it wrote)",
     "one fault flag per call kind (every Sync / Close / Truncate / Remove of a run fails or none does); in a program of the persist shape "
     "each kind occurs once per path, so this is every fault placement",
-    "Close failure and a failing clean-up Remove cannot be provoked on the real file system by the harness: those branches are tied by Gen only",
+    "Close failure is injected (a LockedFile whose first Close releases the handle and reports an error, set through the unexported openExclusive "
+    "field by reflection; work/C13/hook.diff proposes a verif-tagged accessor instead); a failing clean-up os.Remove that leaves the partial file "
+    "cannot be provoked on the real file system (persist_fail_clean assumes removeFault = false): that branch is tied by Gen only",
+    "flock semantics as in Bluge.FS.World: a lock belongs to the open file description and sits on the inode (not the name); LOCK_EX|LOCK_NB fails "
+    "iff another description holds any lock on the inode, LOCK_SH|LOCK_NB iff another holds it exclusively; closing the description releases it; "
+    "unlinking a name leaves the inode (and the locks on it) to its open descriptions; mmap of an empty file fails",
+    "a directory object whose Lock() failed has d.pid == nil (Unlock on it panics); one that locked twice leaks its first handle until the garbage "
+    "collector finalises it (not generated beyond one fixed two-step scenario)",
 ]
 TRUSTED = [
     "extractor go/extract/c13.go (renders the statement list of Persist/remove; refuses unknown shapes)",
@@ -25,9 +38,12 @@ TRUSTED = [
 LEVEL_TEXT = ("Lean 4 theorems about `interp` of the program that go/extract regenerates from FileSystemDirectory.Persist/remove on every run: "
               "for every content, chunking, writer stop point, failing call and prior file state — success implies exact and durable bytes with an "
               "fsync after the last write (full statement proved for a program that truncates; characterised as false, with a replayed witness, for one that does not); "
-              "failure implies the name is absent; tied to /repo by the regenerated program and by the correspondence stream `fs` on the real directory")
+              "failure implies the name is absent; Lock/Unlock/Load and the closers as extracted programs in a several-actor world with flock locks on inodes: "
+              "a Lock() on a locked directory fails before touching the pid file, a refused OpenWriter leaves the world unchanged (so a third writer is refused too), "
+              "Unlock releases, a Load holds a shared lock that blocks remove until its closer ran; bridged to the lock bit of Bluge.Persist (C11); "
+              "tied to /repo by the regenerated programs and by the correspondence stream `fs` on the real directory (real OpenWriter/Close, both loaders, strace)")
 LEVEL_NOTE = ("trusted: Lean kernel + propext/Quot.sound; the small file-system semantics Bluge.FS (OS assumed); the extractor; the harness. "
-              "Sync/Close error branches are tied by Gen (Sync failure also by the harness, Close failure by Gen only)")
+              "Sync and Close error branches are tied by Gen and by the harness (injected); a failing clean-up unlink by Gen only")
 TECHNIQUE = "Lean 4 proof over an extracted file-system program (Gen) + differential correspondence run on a real directory with strace"
 
 SIG = {
